@@ -130,7 +130,22 @@ func genC05(c *Ctx) {
 			}
 			nobj = len(objs)
 		}
-		for i := 0; i < nobj && !family && !twins; i++ {
+		siblings := it%8 == 2
+		if siblings {
+			// children of one prototype whose chain serves absent names through `_missing`; some children override
+			// `_missing` themselves, some own the probed names: the same few names are looked up through every member,
+			// in every order
+			objs = []c05Obj{
+				{kind: "lit", parent: -1, props: [][2]string{{"_missing", "x"}, {"a", "m"}}},
+				{kind: "bear", parent: 0, props: [][2]string{{"c", "v101"}}},
+				{kind: "bear", parent: 0, props: [][2]string{{"_missing", "x"}, {"c", "v201"}}},
+				{kind: "bro", parent: 1, props: [][2]string{{"zz", "v301"}}},
+				{kind: "bear", parent: 2},
+				{kind: "bear", parent: 1, props: [][2]string{{"_missing", c.Rng.Pick([]string{"x", "v401"})}}},
+			}
+			nobj = len(objs)
+		}
+		for i := 0; i < nobj && !family && !twins && !siblings; i++ {
 			o := c05Obj{kind: "lit", parent: -1}
 			if i > 0 {
 				switch c.Rng.Intn(5) {
@@ -222,7 +237,7 @@ func genC05(c *Ctx) {
 		}
 		hist := []string{}
 		nprobes := 8
-		if family {
+		if family || siblings {
 			nprobes = 24
 		}
 		for pr := 0; pr < nprobes; pr++ {
@@ -231,6 +246,9 @@ func genC05(c *Ctx) {
 			if family {
 				i = 2 + c.Rng.Intn(nobj-2)
 				name = c.Rng.Pick([]string{"a", "b", "c", "d", "zz", "tag"})
+			}
+			if siblings {
+				name = c.Rng.Pick([]string{"zz", "zz", "yy", "a", "c"})
 			}
 			forceKind := twins && c.Rng.Intn(3) > 0
 			var probe, src string
